@@ -51,6 +51,8 @@ static void printvec(const char *tag, const Eigen::VectorXd &v) {
 
 int main() {
   std::map<std::string, std::unique_ptr<Spline>> slots;
+  // slots whose last Interpolate/Fit threw: evaluating them would read unset coefficients
+  std::map<std::string, bool> broken;
   Table tab;
   std::string line;
   long seq = 0;
@@ -103,19 +105,24 @@ int main() {
         long n;
         in >> slot >> n;
         Eigen::VectorXd x = readvec(in, n), y = readvec(in, n);
+        broken[slot] = true;
         if (cmd == "interp") {
           get(slot).Interpolate(x, y);
         } else {
           get(slot).Fit(x, y);
         }
+        broken[slot] = false;
         std::cout << "ok" << std::endl;
       } else if (cmd == "fitfrom") {
         std::string slot, src;
         long n;
         in >> slot >> src >> n;
         Eigen::VectorXd x = readvec(in, n);
+        if (broken[src]) throw std::runtime_error("driver: source spline was not built (its last call threw)");
         Eigen::VectorXd y = get(src).Calculate(x);
+        broken[slot] = true;
         get(slot).Fit(x, y);
+        broken[slot] = false;
         std::cout << "ok" << std::endl;
       } else if (cmd == "grid") {
         std::string slot;
@@ -138,6 +145,7 @@ int main() {
         in >> slot >> n;
         Eigen::VectorXd r = readvec(in, n);
         Spline &s = get(slot);
+        if (broken[slot]) throw std::runtime_error("driver: spline was not built (its last call threw)");
         Eigen::VectorXd out(n);
         if (cmd == "calcv") {
           out = s.Calculate(r);
